@@ -59,7 +59,7 @@ var repeatBytes = []byte{0x00, 0xff, 0x0f, 0xf0, 0x55, 0xaa, 0x80, 0x01, 0x7f}
 // random positions overwritten.
 func BytePattern(t *rapid.T, label string) *big.Int {
 	b := make([]byte, 32)
-	fill := rapid.SampledFrom(repeatBytes).Draw(t, label+"_fill")
+	fill := Sampled(repeatBytes).Draw(t, label+"_fill")
 	for i := range b {
 		b[i] = fill
 	}
@@ -73,7 +73,7 @@ func BytePattern(t *rapid.T, label string) *big.Int {
 // Raw256 draws any value in [0, 2^256) from the boundary-biased mixture
 // relative to modulus m (not reduced).
 func Raw256(t *rapid.T, m *big.Int, label string) *big.Int {
-	strat := rapid.IntRange(0, 11).Draw(t, label+"_strat")
+	strat := rapid.IntRange(0, 12).Draw(t, label+"_strat")
 	v := new(big.Int)
 	switch strat {
 	case 0:
@@ -103,6 +103,8 @@ func Raw256(t *rapid.T, m *big.Int, label string) *big.Int {
 	case 9: // 2^256 - small
 		v.Sub(two256, one)
 		v.Sub(v, Small(t, label))
+	case 12: // next to k*2^256/c for the small constants the formulas multiply by
+		v = FracEdge(t, m, label)
 	case 11: // next to a multiple of a limb boundary (carries out of / borrows into a limb; 2^256 mod p folds)
 		v = LimbEdge(t, two256, label)
 	case 10: // within 2^33 of 0 / m / 2^256
@@ -192,9 +194,9 @@ func Bytes(t *rapid.T, lo, hi int, label string) []byte {
 // changes behaviour.
 func LimbEdge(t *rapid.T, m *big.Int, label string) *big.Int {
 	// c * 2^(64*pos) +- e; pos = 1 twice as likely (the low-limb carry is the most common casualty)
-	pos := rapid.SampledFrom([]uint{1, 1, 2, 3, 0}).Draw(t, label+"_limb")
-	c := rapid.SampledFrom([]uint64{1, 1, 2, 3, 1 << 63, ^uint64(0)}).Draw(t, label+"_coef")
-	e := rapid.SampledFrom([]int64{0, 1, 2, 976, 977, 978, 1<<32 - 1, 1 << 32, 1<<32 + 976, 1<<32 + 977, 1<<32 + 978, 2 * (1<<32 + 977), -1}).Draw(t, label+"_edge")
+	pos := Sampled([]uint{1, 1, 2, 3, 0}).Draw(t, label+"_limb")
+	c := Sampled([]uint64{1, 1, 2, 3, 1 << 63, ^uint64(0)}).Draw(t, label+"_coef")
+	e := Sampled([]int64{0, 1, 2, 976, 977, 978, 1<<32 - 1, 1 << 32, 1<<32 + 976, 1<<32 + 977, 1<<32 + 978, 2 * (1<<32 + 977), -1}).Draw(t, label+"_edge")
 	ev := big.NewInt(e)
 	if e < 0 {
 		ev = Small(t, label+"_edgesmall")
@@ -223,7 +225,7 @@ func WideAlias(t *rapid.T, m *big.Int, n int, label string) (src []byte, r, j *b
 	jmax := new(big.Int).Div(new(big.Int).Sub(new(big.Int).Sub(maxv, big.NewInt(1)), r), m)
 	j = new(big.Int)
 	if jmax.Sign() > 0 {
-		switch rapid.SampledFrom([]string{"max", "max", "max-1", "max-small", "1", "0", "uniform", "top-bit"}).Draw(t, label+"_j") {
+		switch Sampled([]string{"max", "max", "max-1", "max-small", "1", "0", "uniform", "top-bit"}).Draw(t, label+"_j") {
 		case "max":
 			j.Set(jmax)
 		case "max-1":
@@ -285,4 +287,50 @@ func Adjacent(parts ...[]byte) (out [][]byte, unchanged func() bool) {
 		off += len(p)
 	}
 	return out, func() bool { return string(backing) == string(orig) }
+}
+
+// Sampled is rapid.SampledFrom with a (near-)uniform choice.  rapid's
+// integer generators -- and therefore SampledFrom -- deliberately favour small
+// values (measured on a 20-element list: the first two elements are drawn 12.5 %
+// of the time each, the middle ones 3.5 %), which starves the later entries of
+// long strategy / mutation lists.  The index is derived by hashing three drawn
+// bytes, so it is still a pure function of the rapid bit stream (replayable);
+// the price is that the shrinker cannot move a choice towards "earlier is
+// simpler".
+func Sampled[T any](items []T) *rapid.Generator[T] {
+	return rapid.Custom(func(t *rapid.T) T {
+		b := rapid.SliceOfN(rapid.Byte(), 3, 3).Draw(t, "pick")
+		h := uint32(2166136261)
+		for _, c := range b {
+			h ^= uint32(c)
+			h *= 16777619
+		}
+		h ^= h >> 15
+		return items[int(h%uint32(len(items)))]
+	})
+}
+
+// FracEdge draws a value whose integer representation -- or, half of the
+// time, whose Montgomery representation -- sits next to k*2^256/c for a small
+// constant c: where multiplying by c (the curve formulas multiply
+// intermediates by 3, 7 and 21 = 3b) wraps around 2^256, which is where a
+// hand-written small-constant multiplication loses a carry.
+func FracEdge(t *rapid.T, m *big.Int, label string) *big.Int {
+	c := Sampled([]int64{21, 21, 21, 3, 7, 2, 4, 8, 12, 24, 42}).Draw(t, label+"_c")
+	k := rapid.Int64Range(1, c-1).Draw(t, label+"_k")
+	v := new(big.Int).Mul(big.NewInt(k), two256)
+	v.Div(v, big.NewInt(c))
+	off := SignedSmall(t, label+"_off")
+	if rapid.Bool().Draw(t, label+"_wide") {
+		off = new(big.Int).SetUint64(rapid.Uint64Range(0, 1<<40).Draw(t, label+"_wideoff"))
+		if rapid.Bool().Draw(t, label+"_neg") {
+			off.Neg(off)
+		}
+	}
+	v.Add(v, off)
+	v.Mod(v, m)
+	if rapid.Bool().Draw(t, label+"_mont") {
+		return ref.FromM(v, m) // the internal (Montgomery) representation is v
+	}
+	return v
 }
